@@ -927,19 +927,30 @@ __ywd_diff(dt_ywd_t d1, dt_ywd_t d2)
 
 	/* first compute the difference in years */
 	tgty = (d2.y - d1.y);
-	/* ... and weeks */
-	tgtw = (d2.c - d1.c);
-	/* ... oh, and days, too */
-	tgtd = (d2.w ?: 7) - (d1.w ?: 7);
+	/* ... then see where d1 lands that many years on, a week 53
+	 * becomes week 52 in years that have none */
+	with (signed int c1 = d1.c, nw = __get_isowk(d1.y + tgty)) {
+		const signed int w1 = d1.w ?: 7;
+		const signed int w2 = d2.w ?: 7;
 
-	/* add carry */
-	if (tgtd < 0) {
-		tgtw--;
-		tgtd += GREG_DAYS_P_WEEK;
-	}
-	if (tgtw < 0) {
-		tgty--;
-		tgtw += __get_isowk(d1.y + tgty);
+		if (c1 > nw) {
+			c1 = nw;
+		}
+		if ((signed int)d2.c < c1 || (signed int)d2.c == c1 && w2 < w1) {
+			/* that's beyond d2, one year less */
+			nw = __get_isowk(d1.y + --tgty);
+			if ((c1 = d1.c) > nw) {
+				c1 = nw;
+			}
+			tgtw = d2.c + nw - c1;
+		} else {
+			tgtw = d2.c - c1;
+		}
+		/* ... oh, and days, too */
+		if ((tgtd = w2 - w1) < 0) {
+			tgtw--;
+			tgtd += GREG_DAYS_P_WEEK;
+		}
 	}
 
 	/* fill in the results */
